@@ -36,6 +36,7 @@ var rbVariants = map[string]kit.Reg{
 	"G-scoped": {Life: "scoped", Outs: []kit.Out{{T: "P2"}}, Group: "g"},
 	"C-scoped": {Life: "scoped", Outs: []kit.Out{{T: "P3"}}, Deps: []kit.Dep{{T: "P1"}}},
 	"Bk-singl": {Life: "singleton", Outs: []kit.Out{{T: "P1"}}, Name: "k"},
+	"Bk-trans": {Life: "transient", Outs: []kit.Out{{T: "P1"}}, Name: "k"},
 	"Ck-scope": {Life: "scoped", In: true, Outs: []kit.Out{{T: "D0"}}, Deps: []kit.Dep{{T: "P1", Key: "k"}}},
 	"U1":       {Life: "singleton", Outs: []kit.Out{{T: "P4"}}},
 	"U2":       {Life: "scoped", Outs: []kit.Out{{T: "P5"}}},
@@ -43,7 +44,7 @@ var rbVariants = map[string]kit.Reg{
 
 var rbAlphabet = []rbOp{
 	{"add", "A-opt"}, {"add", "A-req"}, {"add", "A-group"}, {"add", "A-trans"}, {"add", "B-single"}, {"add", "B-scoped"}, {"add", "Bk-scope"}, {"add", "G-single"}, {"add", "G-scoped"},
-	{"add", "C-scoped"}, {"add", "Bk-singl"}, {"add", "Ck-scope"}, {"add", "U1"}, {"add", "U2"}, {"remove", "P1"}, {"remove", "P4"}, {"remove", "P0"}, {"removekeyed", "P1"}, {"build", ""},
+	{"add", "C-scoped"}, {"add", "Bk-singl"}, {"add", "Bk-trans"}, {"add", "Ck-scope"}, {"add", "U1"}, {"add", "U2"}, {"remove", "P1"}, {"remove", "P4"}, {"remove", "P0"}, {"removekeyed", "P1"}, {"build", ""},
 }
 
 type rbResult struct {
@@ -149,6 +150,7 @@ func rbRun(h []rbOp) rbResult {
 					}
 				}
 				// and every registered plain identity resolves from a scope
+				nres := len(w.Calls)
 				if s, err := p1.CreateScope(nil); err == nil {
 					for _, r := range alive {
 						if r.Group != "" || len(r.Outs) != 1 {
@@ -162,6 +164,31 @@ func rbRun(h []rbOp) rbResult {
 						}
 						if err != nil && strings.Contains(kit.ClassOf(err), "notfound") {
 							bad("notfound-after-build", fmt.Sprintf("Build #%d succeeded, yet resolving %s fails with 'service not found': %v", builds, r, firstLineErr(err)))
+						}
+					}
+				}
+				// an optional dependency that IS registered now must be injected, whatever earlier providers of
+				// this collection found when it was not registered yet
+				has := func(d kit.Dep) bool {
+					for _, r := range alive {
+						if d.Group == "" && r.Group == "" && len(r.Outs) == 1 && r.Outs[0].T == d.T && r.Name == d.Key {
+							return true
+						}
+					}
+					return false
+				}
+				for _, cl := range append(append([]*kit.Call{}, callsEdited...), w.Calls[nres:]...) {
+					rg := spec.Regs[cl.Reg]
+					for i, a := range cl.Args {
+						if i < len(rg.Deps) && rg.Deps[i].Opt && rg.Deps[i].Group == "" && a.Kind == "nil" && has(rg.Deps[i]) {
+							bad("optional-dependency-registered-but-nil", fmt.Sprintf("after Build #%d, %s was constructed with a nil optional dependency %s although that service is registered", builds, &rg, rg.Deps[i].T), "dep-life", func() string {
+								for _, r := range alive {
+									if len(r.Outs) == 1 && r.Outs[0].T == rg.Deps[i].T && r.Name == rg.Deps[i].Key {
+										return r.Life
+									}
+								}
+								return "?"
+							}())
 						}
 					}
 				}
@@ -188,6 +215,10 @@ func rbKeep(prop string, f Finding) bool {
 		return f.F["clause"] == "verdict-depends-on-history"
 	case "C07":
 		return f.F["clause"] == "captive" || (f.F["clause"] == "verdict-depends-on-history" && (strings.Contains(f.F["fresh"], "lifetime") || strings.Contains(f.F["edited"], "lifetime")))
+	case "C03":
+		return f.F["clause"] == "optional-dependency-registered-but-nil" && f.F["dep-life"] == "transient"
+	case "C04":
+		return f.F["clause"] == "optional-dependency-registered-but-nil"
 	case "C08":
 		return f.F["clause"] == "notfound-after-build" || (f.F["clause"] == "verdict-depends-on-history" && (strings.Contains(f.F["fresh"], "notfound") || strings.Contains(f.F["edited"], "notfound") || f.F["fresh"] == "ok"))
 	}
